@@ -211,14 +211,15 @@ pp_twprge_ocr_scrub = re.compile(
 # of Twp/Rge's in the preprocessor.)
 pm_regex = re.compile(
     r"""
-    # Abbreviated 'P.M.'
-    ((P\.?\s{0,10}M\.?)
+    # Abbreviated 'P.M.' (not within a word -- i.e. not the 'pm' inside
+    # 'development', 'equipment', etc.)
+    (((?<![a-z])P\.?\s{0,10}M(?![a-z])\.?)
     
     # Or ...
     |
     
     # Spelled out (allowing for some misspelling).
-    (P{1,2}r{1,2}i{0,2}n{0,2}c{0,2}i{0,2}p{0,2}a{0,2}l{0,2}\s
+    ((?<![a-z])P{1,2}r{1,2}i{0,2}n{0,2}c{0,2}i{0,2}p{0,2}a{0,2}l{0,2}\s
     {0,10}M{1,2}e{0,2}r{0,2}i{0,2}d{0,2}i{0,2}a{0,2}n{0,2}))
     """, re.IGNORECASE | re.VERBOSE)
 
